@@ -196,14 +196,28 @@ class World(object):
     def on_switch(sc_, frm, to):
       if frm is not None and frm.state != 'done' and frm.thread is not None:
         import sys
-        fr = sys._current_frames().get(frm.thread.ident)
+        frames = sys._current_frames()
+        fr = frames.get(frm.thread.ident)
         depth = 0
+        in_dispatch = None
         while fr is not None and depth < 40:
           if fr.f_code.co_name == '__call__' and fr.f_code.co_filename.endswith('events.py'):
             h.window_hits['switch_inside_event_dispatch'] += 1
+            in_dispatch = fr.f_locals.get('self')
             break
           fr = fr.f_back
           depth += 1
+        # the thread we switch to is parked in removeHandler (its list.remove() executes as soon as it runs) while the
+        # thread we leave is in the middle of dispatching that very event
+        if in_dispatch is not None and to is not None and to.thread is not None and getattr(in_dispatch, 'name', '') == 'resumeReceivingMetrics':
+          tf = frames.get(to.thread.ident)
+          d2 = 0
+          while tf is not None and d2 < 12:
+            if tf.f_code.co_name == 'removeHandler' and tf.f_locals.get('self') is in_dispatch:
+              h.disconnect_during_resume_dispatch = getattr(h, 'disconnect_during_resume_dispatch', 0) + 1
+              break
+            tf = tf.f_back
+            d2 += 1
     sc.on_switch = on_switch
 
     # lock callbacks: identify the windows of a drain call on the writer thread
@@ -353,6 +367,18 @@ class World(object):
           p.makeConnection(StringTransport())
           p.verif_connected_while_paused = bool(state.metricReceiversPaused)
           p.verif_state_after_connect = p.transport.producerState
+          # a pause/resume being dispatched by the writer thread right now makes this instantaneous observation meaningless
+          import sys as _s
+          wt = sc.threads[1].thread
+          wf = _s._current_frames().get(wt.ident) if wt is not None else None
+          dd = 0
+          p.verif_writer_mid_dispatch = False
+          while wf is not None and dd < 60:
+            if wf.f_code.co_name == '__call__' and wf.f_code.co_filename.endswith('events.py'):
+              p.verif_writer_mid_dispatch = True
+              break
+            wf = wf.f_back
+            dd += 1
           protos.append(p)
         elif k == 'relaybuf':     # RELAY_CACHE_METRICS: a self-metric is handed to the relay manager (no destination is up)
           if state.client_manager is not None:
